@@ -95,7 +95,7 @@ TEXT = b"abcdefghijklmnopqrstuvwxyz ABC012.,;(){}"
 
 
 def content(rng, bucket, big=False):
-    n = rng.choice([0, 1, 2, 3, 5, 8, 13, 30, 60]) if not big else rng.randrange(200, 700)
+    n = rng.choice([0, 1, 2, 3, 5, 8, 13, 30, 60]) if not big else rng.randrange(100, 300)
     def line():
         return bytes(rng.choice(TEXT) for _ in range(rng.choice([0, 0, 1, 2, 5, 9])))
     out = bytearray()
